@@ -174,6 +174,14 @@ def main():
     known_hit, violations, disagreements = {}, [], []
     n_nontrivial, distinct = 0, set()
     for i, (case, obs, sig) in enumerate(results):
+        if not sig and i in replies and hasattr(mod, "model_oracle"):
+            # the property itself is "the code returns what the (proved) exhaustive model returns": a difference on
+            # an in-scope input is a failing input of the property, not just a broken correspondence
+            try:
+                sig = mod.model_oracle(case, obs, replies[i])
+            except Exception as e:
+                disagreements.append((case, obs, replies[i], "model_oracle crashed: " + repr(e)))
+                sig = None
         if sig:
             # an oracle may report several independent failures of one case: the case is a
             # violation when any of them is not a listed finding
@@ -204,6 +212,8 @@ def main():
                 distinct.add(dg)
                 n_nontrivial += 1
 
+    for k_, v_ in getattr(mod, "STATS", {}).items():
+        ctx.stats[k_] = ctx.stats.get(k_, 0) + v_
     for f in known_hit.values():
         print(f"KNOWN-FINDING: property={prop} {f['what']}")
 
@@ -307,6 +317,11 @@ def replay(mod, prop, path, findings):
     bad = 0
     for case in cases:
         obs, sig = _eval_case(mod, case)
+        if not sig and hasattr(mod, "model_oracle") and hasattr(mod, "model_request"):
+            r = mod.model_request(case, obs)
+            if r is not None:
+                rep = mod.local_model(r) if hasattr(mod, "local_model") else common.run_model([r], shards=1)[0]
+                sig = common.jsonable(mod.model_oracle(case, obs, rep))
         print("case:", json.dumps(case)[:600])
         print("observed:", json.dumps(obs, default=str)[:600])
         if sig:
